@@ -141,6 +141,41 @@ CHECKS["C15"] = dict(
     note="connection, transport and cooperator are recorders; schedules of 5/6 steps over <= 3 producers from the initial state; unit level (no Manager/Connector).",
     ref="6/C15")
 
+CHECKS["C01"] = dict(
+    text="Two real clients whose code words (1-2/3 printable-ASCII characters after the nameplate) and application ids are solver variables: z3 decides equal vs different at "
+         "any position, in three arrival orders (together, one side first, peer's PAKE before the local code via input_code): the PAKE password/identity are exactly the "
+         "UTF-8 of code/appid; both sides report equal verifiers and equal derive_key output (distinct per purpose, length honoured) iff codes and appids are equal; otherwise "
+         "no verifier/versions/message and WrongPasswordError for every side that heard the other. Concrete NFC/NFD, case, ligature, one-character and nameplate samples go "
+         "through the real unicodedata in all three orders; bounded schedules cover arrival orders for wrong/right codes and different appids.",
+    note="ideal PAKE (same key iff same password and identity bytes) and ideal AEAD; real HKDF/SHA-256; symbolic strings are ASCII (NFC = identity there), Unicode "
+         "normalisation is covered by samples only; SPAKE2 group arithmetic and the Unicode tables are outside the claim.",
+    ref="6/C01")
+CHECKS["C02"] = dict(
+    text="Real composed clients; at every prefix of an honest run the adversary delivers to either client a message whose side label (own/peer/third), phase label and body "
+         "choice (any stored mailbox message incl. reflection and cross-phase replay, garbage, fabricated PAKE) are solver variables, or a stored ciphertext with one byte at "
+         "a symbolic position replaced by a symbolic value; then everything else is delivered honestly: each application only ever receives the peer's plaintexts, in order, "
+         "once each, and the peer's versions unaltered. Plus a z3 check on the real derive_phase_key that the HKDF purpose is injective in (side, phase).",
+    note="ideal PAKE/AEAD (bit flip/truncate/extend = 'not an honest ciphertext'); 1 (quick) / 2 (thorough) injections per run; closing with any error is acceptable here.",
+    ref="6/C02")
+CHECKS["C04"] = dict(
+    text="Kernel-level: the receiver's real _parse_offer/_transfer_data/_write_file/_close_transit run over a real transit.Connection in consumer mode with symbolic file "
+         "size (incl. 0), 1..3/4 records of symbolic length and a symbolic loss point: success implies bytes written == announced size == the records in order, the hash "
+         "covers exactly those bytes, the final name is created once and only after completion, the ack is sent only on success; a short stream never yields success, a "
+         "destination or an ack. The sender's real _send_file (through twisted's FileSender) hands the pipe exactly the file's bytes and reports success only for "
+         "ack=='ok' with an absent or equal sha256 and never when the ack is lost (ack fields symbolic).",
+    note="NOT the end-to-end CLI statement: zip/zlib round trip of directory trees, text escaping, tqdm, real sockets and the send()/receive() orchestration are outside; "
+         "records are opaque ropes (wire integrity is C06); ideal hash; recorded file system.",
+    ref="6/C04")
+CHECKS["C05"] = dict(
+    text="The receiver's real _decide_destname/_remove_existing/_ask_permission/_handle_file/_handle_directory/_write_file/_extract_file/_write_directory run on fully "
+         "symbolic offered names and zip member names (every code point; length <= 3/4), crossed with --output-file unset/new/existing file/existing directory, accept-file "
+         "on/off and every prompt answer: z3 shows every recorded mutation (open-for-write, remove, rename, chmod, extract) lies at or beneath the announced destination (or "
+         "its .tmp sibling), the destination is a proper child of the cwd / of the --output-file directory or the --output-file target itself, no directory is ever removed, "
+         "no file is removed without --output-file, an existing destination is refused before any mutation, zip members never land outside the destination directory.",
+    note="sandbox file-system tree instead of a real one (no symlinks/races/Windows); posixpath re-implemented over symbolic strings and differential-tested against the real "
+         "module each run; ZipFile.extract contract assumed; the .tmp sibling counts as part of the destination mechanism.",
+    ref="6/C05")
+
 NOT_YET = {}
 
 NA = {}
